@@ -88,8 +88,9 @@ static Config gen_config(Rng &r)
         static const char *SY_NAMES[] = {"sine", "saw", "square", "noise", "tri", "pulse"};
         static const char *SY_NUMS[] = {"1", "2", "4", "8", "16", "0"};
         static const char *SY_MIXED[] = {"-12", "0", "12", "off", "3", "24"};
-        int symkind = (int)r.below(5);
-        const char **SY = symkind == 3 ? SY_NUMS : symkind == 4 ? SY_MIXED : SY_NAMES;
+        static const char *SY_CASE[] = {"M", "m", "aug", "Aug", "ms", "mS"};      // symbols are case sensitive
+        int symkind = (int)r.below(6);
+        const char **SY = symkind == 3 ? SY_NUMS : symkind == 4 ? SY_MIXED : symkind == 5 ? SY_CASE : SY_NAMES;
         if(symkind >= 3) count("options.numeral_symbols");
         // option values need not be contiguous, and other entries may stand between the mappings
         bool sparse = r.chance(0.3), split = r.chance(0.4);
